@@ -2,7 +2,7 @@
 from . import casecheck
 
 ASSUME_FILE = [
-    "pipeline run on the canonical schedule of vsched (scheduling is C03/C04/C14's subject); ASan build: any memory error ends the case abnormally",
+    "pipeline run on the canonical schedule of vsched (scheduling is C03/C04/C14's subject); ASan build: any memory error ends the case abnormally; C01/C02 additionally on a second deterministic schedule (round robin, with scheduling points inside the stream code) for T >= 2",
     "chunk size overridden to a few blocks (WENCRY_VERIF_BUF_SZ) so that every chunk-boundary class occurs within a few hundred bytes; hash refill size overridden to 128 bytes",
     "reference = OpenSSL libcrypto (EVP AES modes, SHA-1/MD5/SHA-256, HMAC), self-tested against FIPS-197/SP800-38A/RFC vectors at start",
     "data values come from small fixed alphabets (keys, seeds, contents); lengths, modes and thread counts are enumerated completely within the stated bounds",
@@ -13,14 +13,20 @@ def defs(bufsz, hbufsz=2):
     return ["-DWENCRY_VERIF_BUF_SZ=%d" % bufsz, "-DWENCRY_VERIF_HBUF_SZ=%d" % hbufsz]
 
 
+INSTR_SOURCES = ("kernel/multi_aes/aes/aesmode.cpp", "kernel/multi_aes/aes/aes.cpp")
+
+
 def grid_plan(mode):
     def plan(tier):
+        # second deterministic schedule: round robin with scheduling points inside the cipher-stream code (T >= 2 only)
+        rr = dict(defs=defs(2), args=dict(mode=mode, bufsz=2, hbufsz=2, sched="rr"), nshards=16, sanitize="none", instrument_sources=INSTR_SOURCES, instrument_fine=True)
         if tier == "thorough":
             L = [dict(defs=defs(b), args=dict(mode=mode, bufsz=b, hbufsz=2), nshards=16) for b in (2, 1, 3, 4)]
             # the production constants themselves (16 MiB chunks, 32 MiB hash refills) on the real chunk-boundary lengths
             L.append(dict(defs=[], args=dict(mode=mode, prod=1, bufsz="production", hbufsz="production"), nshards=12))
+            L.append(rr)
             return L
-        return [dict(defs=defs(2), args=dict(mode=mode, bufsz=2, hbufsz=2), nshards=16)]
+        return [dict(defs=defs(2), args=dict(mode=mode, bufsz=2, hbufsz=2), nshards=16), rr]
     return plan
 
 
